@@ -627,6 +627,16 @@ theorem verify_panics_on_undecodable_public :
     (verifySignature Toy.schemes { alg := .ed25519, secret := none, pub := [] } [] (List.replicate 64 0) none).isPanic = true := by
   decide
 
+/-- the widths `SignatureType::signature_length` announces are the widths the schemes produce -/
+def Schemes.Std (Sch : Schemes) : Prop := ∀ a : SigAlg, (Sch.scheme a).sigLen = a.native.signatureLength
+
+theorem toy_std : Toy.schemes.Std := by intro a; cases a <;> rfl
+
+theorem sign_length_std {Sch : Schemes} (hstd : Sch.Std) {k : Key} {m : Bytes} {t : Option (List Char)} {s : Bytes}
+    (h : signMessage Sch k m t = .ok s) : ∃ a, k.alg.sigAlg? = some a ∧ s.length = a.native.signatureLength := by
+  obtain ⟨a, ha, hl⟩ := sign_length h
+  exact ⟨a, ha, by rw [hl, hstd a]⟩
+
 /-! ## what the laws of a `SigScheme` do not give -/
 
 /-- a scheme that satisfies every law of `SigScheme` and accepts every one-byte signature: correctness of a scheme says nothing
